@@ -11,8 +11,11 @@ import (
 	"strings"
 	"sync"
 
+	"golang.org/x/image/font"
 	"golang.org/x/image/font/gofont/gomono"
 	"golang.org/x/image/font/gofont/goregular"
+	ximage "golang.org/x/image/font/sfnt"
+	"golang.org/x/image/math/fixed"
 	"golang.org/x/text/language"
 
 	"seehuhn.de/go/postscript/funit"
@@ -843,6 +846,40 @@ func layGenLig(c *Ctx) {
 	}
 }
 
+// layGenXimage: independent implementation (golang.org/x/image/font/sfnt) on the plainest kind of
+// kern table (one horizontal format 0 subtable): its Kern must equal the specification's value.
+func layGenXimage(c *Ctx) {
+	r := c.Rng
+	pool := []int{36, 37, 40, 57, 58, 60, 70, 300, 711}
+	var s laySub
+	s.flags = 1
+	seen := map[[2]int]bool{}
+	for k := r.Range(1, 14); k > 0; k-- {
+		p := [2]int{Pick(r, pool), Pick(r, pool)}
+		if seen[p] {
+			continue
+		}
+		seen[p] = true
+		s.pairs = append(s.pairs, [3]int{p[0], p[1], r.Range(-32768, 32767)})
+	}
+	sort.Slice(s.pairs, func(a, b int) bool {
+		if s.pairs[a][0] != s.pairs[b][0] {
+			return s.pairs[a][0] < s.pairs[b][0]
+		}
+		return s.pairs[a][1] < s.pairs[b][1]
+	})
+	var ask []string
+	for _, p := range s.pairs {
+		ask = append(ask, fmt.Sprintf("%d:%d", p[0], p[1]))
+	}
+	for k := 0; k < 3; k++ {
+		ask = append(ask, fmt.Sprintf("%d:%d", Pick(r, pool), Pick(r, pool)))
+	}
+	subs := []laySub{s}
+	c.Case(Direct, "layout.kern.ximage", fmt.Sprintf("subs=%s kern=%s pairs=%s", layShowSubs(subs), hx(layEncKern(subs)), strings.Join(ask, ",")), true)
+	c.Stat("ximage.pairs", bucket(len(s.pairs)))
+}
+
 func areaLayout(c *Ctx) {
 	nFind := c.N / 2
 	nKern := c.N / 5
@@ -859,6 +896,9 @@ func areaLayout(c *Ctx) {
 	}
 	for i := 0; i < nText; i++ {
 		layGenText(c, i)
+	}
+	for i := 0; i < c.N/20; i++ {
+		layGenXimage(c)
 	}
 }
 
@@ -894,6 +934,27 @@ func init() {
 		}))
 	}
 	ops["layout.kern.spec"] = func(f Fields) string { return "ok" }
+	ops["layout.kern.ximage"] = func(f Fields) string {
+		return canonPanic(guard(func() string {
+			xf, err := ximage.Parse(layFontBytes("regular", nil, f.Hex("kern")))
+			if err != nil {
+				return "err:parse"
+			}
+			upm := xf.UnitsPerEm()
+			var out []string
+			for _, p := range f.List("pairs", ",") {
+				var a, b int
+				fmt.Sscanf(p, "%d:%d", &a, &b)
+				// ppem = unitsPerEm/64 pixels: the scaled result in 26.6 fixed point is the raw value
+				v, err := xf.Kern(nil, ximage.GlyphIndex(a), ximage.GlyphIndex(b), fixed.Int26_6(upm), font.HintingNone)
+				if err != nil {
+					return "err:kern"
+				}
+				out = append(out, fmt.Sprintf("%d:%d:%d", a, b, int(v)))
+			}
+			return strings.Join(out, ",")
+		}))
+	}
 	ops["layout.lig"] = func(f Fields) string {
 		return canonPanic(guard(func() string {
 			cm := layParseCm(f["map"])
